@@ -196,6 +196,10 @@ def run(ctx):
     for data, name in c10gen.number_token_mutants(bases[0][1]):
         for t in ("0", "2"):
             add("arpa", data, [name], t, [])
+    # lines and tokens longer than FilePiece's mapping window (the reader must remap and grow it; a reader that cannot hangs)
+    for data, name in c10gen.long_line_mutants(rng, bases[rng.below(2)][1], ctx.pick(1, 6)):
+        for t in (rng.choice("01"), rng.choice("2345")):
+            add("arpa", data, [name], t, [])
     # ARPA mutants
     n_arpa = ctx.pick(600, 30000)
     for _ in range(n_arpa):
@@ -301,7 +305,9 @@ def run(ctx):
                 m["size_key"] = keys[sl]
         mout = []
         for i in range(0, len(mlines), 2000):
-            mout += vlib.run_lines(ocaml, mlines[i:i + 2000], timeout=1200)
+            # the extracted functions recurse once per byte of a line: megabyte lines need a deep stack
+            mout += vlib.run_lines(ocaml, mlines[i:i + 2000], timeout=1800,
+                                   prefix=("sh", "-c", 'ulimit -s unlimited 2>/dev/null || ulimit -s 4000000; exec "$0" "$@"'))
         for m, v in zip(meta, outs):
             mo = mout[m["model_key"]]
             m["model"] = mo
@@ -349,7 +355,7 @@ def run(ctx):
                             "deleted / duplicated / swapped / moved lines of every kind, wrong / malformed / overflowing / consistent counts, count-line syntax, "
                             "42 broken-number spellings (incl. the float32 zero and overflow thresholds) in probability and back-off position, unknown words, dropped / "
                             "duplicated / swapped sections and headers, missing \\data\\ / \\end\\, stray bytes, field-structure damage, missing <s> </s> <unk>, "
-                            "duplicate unigrams, pruned contexts, CR/LF variants, foreign magic numbers, a 7th order, trailing data, degenerate tiny files; (b) byte-level "
+                            "duplicate unigrams, pruned contexts, lines / words / tokens longer than FilePiece's 1 MB + 1 page mapping window (comment, blank line, vocabulary word, junk number),  CR/LF variants, foreign magic numbers, a 7th order, trailing data, degenerate tiny files; (b) byte-level "
                             "flips / inserts / deletes; (c) truncations and header-field mismatches (magic, version, sanity block, order, multiplier, type, vocabulary flag, "
                             "search version, incomplete marker) of valid binary files of all six types, offered to the matching class, another class and LoadVirtual, "
                             "through LAZY / POPULATE_OR_LAZY / POPULATE_OR_READ / READ; (d) truncations of the memory image of binaries built without vocabulary strings "
